@@ -37,7 +37,7 @@ def salts(draw):
     if k < 2:
         return None
     if k < 5:
-        return draw(st.sampled_from(["s", "", "é", "É", "salt-日本", "\U0001f9ea", "a'b", 'a"b', "\\", "tab\there", "\x00", "\x7f", "%s", "{}", "a\rb", "\r", "\x0c", "\u2028", "\x85z"]))
+        return draw(st.sampled_from(["s", "", "é", "É", "salt-日本", "\U0001f9ea", "a'b", 'a"b', "\\", "tab\there", "\x00", "\x7f", "%s", "{}", "a\rb", "\r", "\x0c", "\u2028", "\x85z", "s" * 300, "007", "1e3", "nan"]))
     s = draw(st.text(alphabet=st.characters(exclude_categories=["Cs"], exclude_characters=M.LINE_BREAKS), max_size=20))
     return s
 
@@ -64,9 +64,18 @@ def cases(draw):
             # ==-equal values that print differently, in generated order on one evaluator
             env[names[0]] = draw(st.sampled_from(cluster))
         for extra in draw(st.lists(st.sampled_from(["extra1", "unused", "zzz", "other_field"]), max_size=2, unique=True)):
-            env[extra] = draw(_values)
+            # an unrelated field is never printed, so even an int that CPython refuses to convert to text is fine there
+            env[extra] = draw(st.one_of(_values, st.sampled_from([10 ** 5000, -(10 ** 6000), float("nan"), (1, 2), [1, 2]])))
         inputs.append(M.enc_inputs(env))
     return {"prog": prog, "inputs": inputs}
+
+
+def _short(v):
+    if isinstance(v, int) and not isinstance(v, bool) and v.bit_length() > 200:
+        return "<int of %d bits>" % v.bit_length()
+    if isinstance(v, str) and len(v) > 60:
+        return v[:40] + "..."
+    return v
 
 
 def _interesting(v):
@@ -91,7 +100,7 @@ def judge(case):
     for enc in case["inputs"]:
         env = M.dec_inputs(enc)
         act = sut.call(ev, env)
-        short = {k: (v if not isinstance(v, (str, int)) or len(str(v)) < 60 else str(v)[:40] + "...") for k, v in env.items()}
+        short = {k: _short(v) for k, v in env.items()}
         if act[0] != "group" or act[1] not in labels:
             viol.append("no group returned: %r | salt=%r | inputs=%r" % (act, salt, short))
             continue
@@ -117,7 +126,7 @@ def judge(case):
         if act2 != act:
             viol.append("f(v) != f(str(v)): %r vs %r | inputs=%r" % (act, act2, short))
     return {"viol": viol, "nontrivial": nt, "tags": sorted(set(tags)), "key": [text, case["inputs"]],
-            "sample": {"text": text[:200], "inputs": [{k: repr(v)[:60] for k, v in M.dec_inputs(e).items()} for e in case["inputs"][:2]]}}
+            "sample": {"text": text[:200], "inputs": [{k: repr(_short(v))[:60] for k, v in M.dec_inputs(e).items()} for e in case["inputs"][:2]]}}
 
 
 def judge_proba(case):
